@@ -309,10 +309,15 @@ class CookieJar(AbstractCookieJar):
 
     def _delete_cookies(self, to_del: list[tuple[str, str, str]]) -> None:
         for domain, path, name in to_del:
-            self._host_only_cookies.discard((domain, name))
             self._cookies[(domain, path)].pop(name, None)
             self._morsel_cache[(domain, path)].pop(name, None)
             self._expirations.pop((domain, path, name), None)
+            # The host-only flag is shared by the same-named cookies of this
+            # domain on other paths; keep it while one of them is still stored.
+            if not any(
+                d == domain and name in c for (d, _), c in self._cookies.items()
+            ):
+                self._host_only_cookies.discard((domain, name))
 
     def _expire_cookie(self, when: float, domain: str, path: str, name: str) -> None:
         cookie_key = (domain, path, name)
